@@ -18,13 +18,13 @@
 (*  roundtrip  ty val x d x2 d2     each [k|->"ok", ..] or reject/exc       *)
 (*  fixpoint   ty x out                                                     *)
 (***************************************************************************)
-EXTENDS PaneErrors, Json, IOUtils, TLC
+EXTENDS PaneClasses, Json, IOUtils, TLC
 
 LoadedFacts == JsonDeserialize(IOEnv.PANE_FACTS)
 Events      == ndJsonDeserialize(IOEnv.PANE_TRACE)
 
-VARIABLES l, bad
-tvars == <<l, bad>>
+VARIABLES l, bad, seen      \* seen: identities of default-factory products observed so far (C14)
+tvars == <<l, bad, seen>>
 
 -----------------------------------------------------------------------------
 -----------------------------------------------------------------------------
@@ -105,6 +105,8 @@ UnionSerFails(e) ==
 
 Fails(e) ==
   CASE e.op = "from_data" -> FromDataFails(e)
+    [] e.op = "construct" -> ConstructFails(e, seen)
+    [] e.op = "created"   -> FromDataFails(e) \cup CreatedFails(e, seen)
     [] e.op = "unionser"  -> UnionSerFails(e)
     [] e.op = "build"     -> BuildFails(e)
     [] e.op = "tagmsg"    -> TagMsgFails(e)
@@ -117,10 +119,11 @@ Fails(e) ==
     [] OTHER -> {"unknown-event"}
 
 -----------------------------------------------------------------------------
-TraceInit == l = 1 /\ bad = {}
+TraceInit == l = 1 /\ bad = {} /\ seen = {}
 TraceNext == /\ l <= Len(Events)
              /\ l' = l + 1
              /\ bad' = bad \cup {<<Events[l].id, c>> : c \in Fails(Events[l])}
+             /\ seen' = IF Events[l].op \in {"construct", "created"} THEN seen \cup Range(Events[l].ids) ELSE seen
 TraceSpec == TraceInit /\ [][TraceNext]_tvars
 
 (* printed once, in the final state *)
